@@ -16,3 +16,5 @@ func verifJobEnd() {}
 func verifCommitted(s *session, r *sessionRecord, nv *version, trivial bool) {}
 
 func verifNoteMinSeq(s *session, minSeq uint64, level int) {}
+
+func verifForgetMinSeq(s *session) {}
